@@ -218,6 +218,38 @@ def install(it):
         m.ns['maxsize'] = __import__('sys').maxsize
         return m
 
+    # ---------------- re
+    @module('re')
+    def _re(it):
+        import re as _re_mod
+        m = I.ModuleVal('re')
+        for k in ('DOTALL', 'IGNORECASE', 'MULTILINE', 'VERBOSE', 'ASCII',
+                  'UNICODE', 'I', 'S', 'M', 'X', 'A', 'U'):
+            m.ns[k] = int(getattr(_re_mod, k))
+
+        def compile_(it, a, kw):
+            pat = a[0]
+            flags = a[1] if len(a) > 1 else kw.get('flags', 0)
+            if isinstance(pat, PatternVal):
+                return pat
+            if not isinstance(pat, str) or not isinstance(flags, int):
+                raise Unsupported('re.compile of symbolic pattern')
+            it.host_call(_re_mod.compile, pat, flags)
+            return PatternVal(pat, flags)
+        m.ns['compile'] = B('re.compile', compile_)
+
+        def modfn(name):
+            def fn(it, a, kw):
+                pat = compile_(it, [a[0]], {'flags': kw.get('flags', 0)})
+                return pattern_method(it, pat, name, a[1:], kw)
+            return B('re.' + name, fn)
+        for nm in ('match', 'search', 'fullmatch', 'sub', 'findall', 'split'):
+            m.ns[nm] = modfn(nm)
+        m.ns['escape'] = B('re.escape', lambda it, a, kw: it.host_call(
+            _re_mod.escape, a[0]))
+        m.ns['error'] = it.exc_class(_re_mod.error)
+        return m
+
     # ---------------- oslo_utils.units is interpreted from /repo
     # ---------------- collections.abc
     @module('collections.abc')
@@ -233,6 +265,53 @@ def install(it):
         m = I.ModuleVal('collections')
         m.ns['abc'] = it.import_module('collections.abc')
         return m
+
+
+# --------------------------------------------------------------------------
+# re
+
+
+class PatternVal:
+    """A compiled pattern (pattern text + flags are concrete)."""
+
+    def __init__(self, pattern, flags):
+        self.pattern = pattern
+        self.flags = flags
+
+    def __repr__(self):
+        return 'PatternVal(%r)' % self.pattern
+
+
+class HostValue:
+    """Opaque wrapper of a host object (e.g. re.Match) produced by a model on
+    concrete inputs; its methods run natively on concrete arguments."""
+
+    def __init__(self, obj):
+        self.obj = obj
+
+
+def wrap_host(v):
+    if v is None or isinstance(v, (int, str, bytes, float, bool)):
+        return v
+    if isinstance(v, (list, tuple)):
+        return type(v)(wrap_host(x) for x in v)
+    if isinstance(v, dict):
+        return {k: wrap_host(x) for k, x in v.items()}
+    return HostValue(v)
+
+
+def pattern_method(it, pat, name, args, kw):
+    import re as _re_mod
+    hook = getattr(it, 'regex_hook', None)
+    if hook is not None:
+        r = hook(it, pat, name, args, kw)
+        if r is not NotImplemented:
+            return r
+    if all(isinstance(a, (str, int)) for a in args):
+        rx = _re_mod.compile(pat.pattern, pat.flags)
+        return wrap_host(it.host_call(getattr(rx, name), *args, **kw))
+    raise Unsupported('regex %s on a symbolic string (pattern %r)'
+                      % (name, pat.pattern[:40]))
 
 
 # --------------------------------------------------------------------------
